@@ -48,6 +48,10 @@ pub fn gen_program(cx: &mut Case, cfg_mod: impl FnOnce(&mut GenCfg)) -> (Prog, A
         cx.src = src;
         return (p, s, t);
     }
+    if cx.src.chance(40) {
+        cx.label("program: projections over a byte-oriented layout");
+        return gen_layout_program(cx);
+    }
     let wmax = [6usize, 40, 200][cx.src.below(3)];
     let (a, b) = gen_arrow(&mut cx.src, wmax);
     let mut src = cx.src.clone();
@@ -57,6 +61,167 @@ pub fn gen_program(cx: &mut Case, cfg_mod: impl FnOnce(&mut GenCfg)) -> (Prog, A
     cx.src = src;
     cx.label("program: generated");
     (p, a, b)
+}
+
+fn konst_ir(v: &RVal, nodes: &mut Vec<Ir>) -> usize {
+    let ir = match v {
+        RVal::Unit => Ir::Unit,
+        RVal::L(x) => Ir::InjL(konst_ir(x, nodes)),
+        RVal::R(x) => Ir::InjR(konst_ir(x, nodes)),
+        RVal::Pair(x, y) => {
+            let a = konst_ir(x, nodes);
+            let b = konst_ir(y, nodes);
+            Ir::Pair(a, b)
+        }
+    };
+    nodes.push(ir);
+    nodes.len() - 1
+}
+
+/// Directed population aimed at alignment-dependent behaviour of the copy/move/skip paths: a
+/// record R of 2..7 components whose widths are bytes, bytes plus or minus a few bits, and
+/// single bits; the program copies a selection of components (or their halves) into an output
+/// record, so that copies of >= 8 bits that are not a multiple of 8 start and end at all
+/// residues mod 8, directly next to other live frames.  Forms: R is the input; R is produced by a
+/// constant in a comp (the output frame then lies directly in front of the comp's frame); two
+/// projection stages in sequence.  With probability 1/2 a filler of 1..7 bits is put in front
+/// of R so that a chosen copy reads from a byte boundary in the comp form.
+fn gen_layout_program(cx: &mut Case) -> (Prog, Arc<RTy>, Arc<RTy>) {
+    let s = &mut cx.src;
+    let two = RTy::two;
+    let w = RTy::word;
+    let bits_ty = |n: usize| -> Arc<RTy> {
+        match n {
+            1 => two(),
+            2 => w(1),
+            3 => RTy::prod(two(), w(1)),
+            4 => w(2),
+            5 => RTy::prod(two(), w(2)),
+            6 => RTy::prod(w(1), w(2)),
+            _ => RTy::prod(RTy::prod(two(), w(1)), w(2)),
+        }
+    };
+    let pick = |s: &mut Src| -> Arc<RTy> {
+        match s.below(18) {
+            0 => w(3),
+            1 => w(4),
+            2 => w(5),
+            3 => RTy::sum(RTy::unit(), w(3)),
+            4 => RTy::prod(two(), w(3)),
+            5 => RTy::prod(w(3), two()),
+            6 => w(2),
+            7 => two(),
+            8 => w(1),
+            9 => RTy::sum(RTy::unit(), w(4)),
+            10 => RTy::prod(w(3), w(2)),
+            11 => RTy::sum(w(3), w(4)),
+            12 => RTy::prod(w(4), w(3)),
+            13 => RTy::unit(),
+            14 => w(6),
+            15 => RTy::sum(w(3), RTy::unit()),
+            16 => {
+                let n = 1 + s.below(7);
+                bits_ty(n)
+            }
+            _ => gen_ty(s, 40, 4),
+        }
+    };
+    let k = 2 + s.below(5);
+    let mut comps: Vec<Arc<RTy>> = (0..k).map(|_| pick(s)).collect();
+    // selection of components for the output record (repetition allowed)
+    let m = 1 + s.below(4);
+    let mut sel: Vec<usize> = (0..m).map(|_| s.below(comps.len())).collect();
+    let form = s.below(3);
+    if s.bool() {
+        // steer: in the comp form the read frame starts right behind the output frame
+        let out_w: usize = sel.iter().map(|i| comps[*i].width).sum();
+        let t = sel[s.below(sel.len())];
+        let off: usize = comps[..t].iter().map(|c| c.width).sum();
+        let need = (8 - (out_w + off) % 8) % 8;
+        if need > 0 {
+            comps.insert(0, bits_ty(need));
+            for x in sel.iter_mut() {
+                *x += 1;
+            }
+            // the filler itself is sometimes read after the big copies
+            if s.bool() {
+                sel.push(0);
+            }
+        }
+    }
+    let k = comps.len();
+    let left_nested = s.bool();
+    let r_ty = if left_nested {
+        comps[1..].iter().fold(comps[0].clone(), |acc, c| RTy::prod(acc, c.clone()))
+    } else {
+        let mut it = comps.iter().rev();
+        let last = it.next().unwrap().clone();
+        it.fold(last, |acc, c| RTy::prod(c.clone(), acc))
+    };
+    let mut nodes: Vec<Ir> = vec![];
+    fn push(nodes: &mut Vec<Ir>, ir: Ir) -> usize {
+        nodes.push(ir);
+        nodes.len() - 1
+    }
+    // projection of component i out of R
+    let proj = |nodes: &mut Vec<Ir>, i: usize| -> usize {
+        let mut e = push(nodes, Ir::Iden);
+        if k == 1 {
+            return e;
+        }
+        if left_nested {
+            if i > 0 {
+                e = push(nodes, Ir::Drop(e));
+            }
+            let takes = if i == 0 { k - 1 } else { k - 1 - i };
+            for _ in 0..takes {
+                e = push(nodes, Ir::Take(e));
+            }
+        } else {
+            if i < k - 1 {
+                e = push(nodes, Ir::Take(e));
+            }
+            let drops = if i == k - 1 { k - 1 } else { i };
+            for _ in 0..drops {
+                e = push(nodes, Ir::Drop(e));
+            }
+        }
+        e
+    };
+    let record = |nodes: &mut Vec<Ir>, sel: &[usize]| -> usize {
+        let mut items: Vec<usize> = sel.iter().map(|i| proj(nodes, *i)).collect();
+        let mut acc = items.pop().unwrap();
+        while let Some(p) = items.pop() {
+            acc = push(nodes, Ir::Pair(p, acc));
+        }
+        acc
+    };
+    let out_ty = |sel: &[usize]| -> Arc<RTy> {
+        let mut it = sel.iter().rev();
+        let last = comps[*it.next().unwrap()].clone();
+        it.fold(last, |acc, i| RTy::prod(comps[*i].clone(), acc))
+    };
+    let body = record(&mut nodes, &sel);
+    let b_ty = out_ty(&sel);
+    match form {
+        0 => (Prog { nodes, root: body, family: Family::Core }, r_ty, b_ty),
+        1 => {
+            // comp (const r) body : 1 -> B
+            let r = gen_val(s, &r_ty);
+            let c = konst_ir(&r, &mut nodes);
+            let root = push(&mut nodes, Ir::Comp(c, body));
+            (Prog { nodes, root, family: Family::Core }, RTy::unit(), b_ty)
+        }
+        _ => {
+            // comp (pair body iden) (drop body') : R -> B  (a second stage reading R behind a first output)
+            let i = push(&mut nodes, Ir::Iden);
+            let p = push(&mut nodes, Ir::Pair(body, i));
+            let body2 = record(&mut nodes, &sel);
+            let d = push(&mut nodes, Ir::Drop(body2));
+            let root = push(&mut nodes, Ir::Comp(p, d));
+            (Prog { nodes, root, family: Family::Core }, r_ty, b_ty)
+        }
+    }
 }
 
 /// Append a wrapper around the root of `prog` (intended arrow a -> b).  Returns the new program
